@@ -3,6 +3,7 @@ package wal
 import (
 	"bufio"
 	"encoding/binary"
+	"errors"
 	"fmt"
 	"hash/crc32"
 	"io"
@@ -46,7 +47,7 @@ func (r *Reader) ReadEntry() (*Entry, error) {
 			if err == io.EOF {
 				// If we have fragments, this is unexpected EOF
 				if len(r.fragments) > 0 {
-					return nil, fmt.Errorf("unexpected EOF with %d fragments", len(r.fragments))
+					return nil, fmt.Errorf("%w with %d fragments", io.ErrUnexpectedEOF, len(r.fragments))
 				}
 				return nil, io.EOF
 			}
@@ -296,6 +297,13 @@ func ReplayWALFile(path string, handler EntryHandler) (*RecoveryStats, error) {
 		if err != nil {
 			if err == io.EOF {
 				// Reached the end of the file
+				break
+			}
+
+			// The file ends inside an entry: the process died while writing it.
+			// Every complete entry before it has been delivered, so this is the
+			// end of the log, not a reason to give up on the whole directory
+			if errors.Is(err, io.ErrUnexpectedEOF) {
 				break
 			}
 
